@@ -281,8 +281,10 @@ def native_replay(scratch, crate, harness, values, profiles=("dev", "release"), 
     res = {}
     outs = {}
     for prof in profiles:
-        if as_test:
-            cmd = ["cargo", "test", "--offline", "--lib"] + as_test + (["--release"] if prof == "release" else []) + \
+        if as_test is not False and as_test is not None:
+            # in-crate overlay harnesses: the replay entry is a #[test] of the scratch copy's lib
+            # (as_test = extra cargo arguments, possibly none)
+            cmd = ["cargo", "test", "--offline", "--lib"] + list(as_test) + (["--release"] if prof == "release" else []) + \
                   ["--", test_name, "--nocapture", "--test-threads", "1"]
         else:
             cmd = ["cargo", "run", "--offline", "--quiet", "--bin", "replay"] + (cargo_extra or []) + (["--release"] if prof == "release" else []) + ["--", harness]
@@ -292,7 +294,9 @@ def native_replay(scratch, crate, harness, values, profiles=("dev", "release"), 
             res[prof] = "assume"
         elif "REPLAY-PASSED" in out and rc == 0:
             res[prof] = "passed"
-        elif rc in (101,) or "panicked at" in out:
+        elif "panicked at" in out and "REPLAY-ENTERED" in out:
+            # cargo itself exits 101 for a build/usage error too: only a panic of the harness
+            # body, after the replay entry point was reached, counts as a reproduction
             res[prof] = "reproduced"
         else:
             res[prof] = "error"
